@@ -3,9 +3,12 @@ package main
 import (
 	"fmt"
 	"math/rand"
+	"os"
+	"path/filepath"
 
 	"github.com/akrennmair/updog"
 	"github.com/akrennmair/updog/verifharness/gen"
+	"github.com/akrennmair/updog/verifharness/ix"
 	"github.com/akrennmair/updog/verifharness/oracle"
 	"github.com/akrennmair/updog/verifharness/vf"
 )
@@ -125,5 +128,184 @@ func c08SharedParts(r *vf.Run, id string, rng *rand.Rand, A, B *gen.Dataset, ts 
 		}
 	}
 	r.Count("shared_filter_object_executions", int64(steps))
+	r.Distinct(cid)
+}
+
+// c08Holes (round 7): a Query value that is incomplete when it is first executed (an operand that is nil below AND, OR or
+// NOT, at the root or three levels down) is rejected with an error; the caller then fills the hole in place and executes
+// the SAME value again, punches the hole again, fills it with something else ... Every complete state answers like a
+// freshly built equal query, every incomplete one is an error, on every index.
+func c08Holes(r *vf.Run, id string, rng *rand.Rand, A *gen.Dataset, ts []c08Target) {
+	cid := id + "/holes"
+	if !r.Want(cid) || len(ts) == 0 {
+		return
+	}
+	cols := A.ColNames()
+	leafPair := func() (*oracle.Expr, updog.Expression) {
+		l := gen.Leaf(rng, A, cols)
+		return l, &updog.ExprEqual{Column: l.Col, Value: l.Val}
+	}
+	for shape := 0; shape < 6; shape++ {
+		// the operator that has the hole, and where it hangs
+		x1, u1 := leafPair()
+		x2, u2 := leafPair()
+		var holder updog.Expression
+		var setHole func(u updog.Expression)
+		var ref func(filled *oracle.Expr) *oracle.Expr
+		switch shape % 3 {
+		case 0:
+			n := &updog.ExprAnd{Exprs: []updog.Expression{u1, nil, u2}}
+			holder, setHole = n, func(u updog.Expression) { n.Exprs[1] = u }
+			ref = func(f *oracle.Expr) *oracle.Expr { return oracle.And(x1, f, x2) }
+		case 1:
+			n := &updog.ExprOr{Exprs: []updog.Expression{nil, u1, u2}}
+			holder, setHole = n, func(u updog.Expression) { n.Exprs[0] = u }
+			ref = func(f *oracle.Expr) *oracle.Expr { return oracle.Or(f, x1, x2) }
+		default:
+			n := &updog.ExprNot{}
+			holder, setHole = n, func(u updog.Expression) { n.Expr = u }
+			ref = func(f *oracle.Expr) *oracle.Expr { return oracle.Not(f) }
+		}
+		root, wrap := holder, func(e *oracle.Expr) *oracle.Expr { return e }
+		if shape >= 3 {
+			y, uy := leafPair()
+			root = &updog.ExprOr{Exprs: []updog.Expression{uy, &updog.ExprNot{Expr: &updog.ExprAnd{Exprs: []updog.Expression{holder, uy}}}}}
+			wrap = func(e *oracle.Expr) *oracle.Expr { return oracle.Or(y, oracle.Not(oracle.And(e, y))) }
+		}
+		var gb []string
+		if shape%2 == 1 {
+			gb = gen.GroupBy(rng, A, 1, 200)
+		}
+		q := &updog.Query{Expr: root, GroupBy: append([]string{}, gb...)}
+		var history []string
+		for step := 0; step < 6; step++ {
+			t := ts[rng.Intn(len(ts))]
+			r.Eval(1)
+			if step%2 == 0 {
+				setHole(nil)
+				history = append(history, "hole@"+t.name)
+				var res *updog.Result
+				var err error
+				if p, msg, _ := vf.Try(func() { res, err = t.idx.Execute(q) }); p {
+					r.Violation(cid, "panic", map[string]any{"panic": msg, "history": history, "note": "a Query value with a nil operand was executed"})
+					return
+				}
+				if err == nil {
+					r.Violation(cid, "incomplete-query-answered", map[string]any{"result": fmt.Sprintf("%+v", res), "history": history})
+					return
+				}
+				r.Count("incomplete_query_values_rejected", 1)
+				continue
+			}
+			f, uf := leafPair()
+			if step == 3 {
+				f2, uf2 := leafPair()
+				f, uf = oracle.And(f, oracle.Not(f2)), &updog.ExprAnd{Exprs: []updog.Expression{uf, &updog.ExprNot{Expr: uf2}}}
+			}
+			setHole(uf)
+			history = append(history, "filled@"+t.name)
+			e := wrap(ref(f))
+			want := oracle.Eval(t.ds.Rows, t.ds.Cols, e, gb)
+			res, err := t.idx.Execute(q)
+			if d := oracle.CompareResult(res, err, want, gb); d != "" {
+				r.Violation(cid, "answer", map[string]any{"difference": d, "expr": e.String(), "group_by": fmt.Sprintf("%q", gb), "history": history,
+					"note": "the Query value was rejected while it had a nil operand; the caller filled the operand in place and executed the same value again"})
+				return
+			}
+			r.Count("query_values_completed_in_place_and_executed", 1)
+		}
+	}
+	r.Distinct(cid)
+}
+
+// c08Rebuilt (round 7): the index FILE a Query value was executed on is replaced by another index under the same name --
+// closed, removed and rebuilt, or renamed over while the old index is still open -- and the same Query value is executed
+// on the index opened from that name now. It answers for the index it is given, not for the name it has seen before.
+func c08Rebuilt(r *vf.Run, id string, rng *rand.Rand, A, B *gen.Dataset, dir string) {
+	cid := id + "/rebuilt-at-same-path"
+	if !r.Want(cid) {
+		return
+	}
+	var shared []string
+	for _, c := range A.ColNames() {
+		if B.Cols[c] && len(A.Vals[c]) <= 60 && len(B.Vals[c]) <= 60 {
+			shared = append(shared, c)
+		}
+	}
+	if len(shared) == 0 {
+		return
+	}
+	p := filepath.Join(dir, "same-name.updog")
+	side := filepath.Join(dir, "same-name-next.updog")
+	build := func(path string, ds *gen.Dataset) bool {
+		os.Remove(path)
+		if err := ix.Build(ix.Writers[rng.Intn(3)], path, ds.Rows); err != nil {
+			r.Violation(cid, "build", err.Error())
+			return false
+		}
+		return true
+	}
+	for _, mode := range []string{ix.OpenOnDemand, ix.OpenPreloaded} {
+		gb := []string{shared[rng.Intn(len(shared))]}
+		if len(shared) > 1 && rng.Intn(2) == 0 {
+			gb = append(gb, shared[rng.Intn(len(shared))])
+		}
+		e := gen.Expr(rng, A, shared, rng.Intn(3), 3)
+		q := &updog.Query{Expr: e.ToUpdog(), GroupBy: append([]string{}, gb...)}
+		exec := func(idx *updog.Index, ds *gen.Dataset, step string) bool {
+			want := oracle.Eval(ds.Rows, ds.Cols, e, gb)
+			var res *updog.Result
+			var err error
+			if pn, msg, _ := vf.Try(func() { res, err = idx.Execute(q) }); pn {
+				r.Violation(cid, "panic", map[string]any{"panic": msg, "step": step, "open_mode": mode})
+				return false
+			}
+			r.Eval(1)
+			if d := oracle.CompareResult(res, err, want, gb); d != "" {
+				r.Violation(cid, "answer", map[string]any{"difference": d, "expr": e.String(), "group_by": fmt.Sprintf("%q", gb), "step": step, "open_mode": mode})
+				return false
+			}
+			return true
+		}
+		if !build(p, A) {
+			return
+		}
+		i1, err := ix.Open(p, mode, nil)
+		if err != nil {
+			r.Violation(cid, "open", err.Error())
+			return
+		}
+		ok := exec(i1, A, "first index at the path")
+		// route 1: close, remove, rebuild under the same name, open again
+		i1.Close()
+		if !ok || !build(p, B) {
+			return
+		}
+		i2, err := ix.Open(p, mode, nil)
+		if err != nil {
+			r.Violation(cid, "open", err.Error())
+			return
+		}
+		ok = exec(i2, B, "another index rebuilt under the same name after Close")
+		// route 2: a third index renamed over the name while i2 is still open; both are open at once
+		if ok && build(side, A) {
+			if err := os.Rename(side, p); err == nil {
+				i3, err := ix.Open(p, mode, nil)
+				if err != nil {
+					r.Violation(cid, "open", err.Error())
+				} else {
+					ok = exec(i3, A, "a third index renamed over the name while the second is still open") &&
+						exec(i2, B, "the second index (still open, its file unlinked by the rename)") &&
+						exec(i3, A, "the third index again")
+					i3.Close()
+				}
+			}
+		}
+		i2.Close()
+		if !ok {
+			return
+		}
+		r.Count("query_values_executed_on_rebuilt_files", 1)
+	}
 	r.Distinct(cid)
 }
